@@ -137,6 +137,14 @@ func GenExpr(r *Rand) Expr {
 		{".a + " + n, "construct", false, false},
 		{".a * " + n, "construct", false, false},
 		{".a % 3", "construct", false, false},
+		{".a % 0x0", "construct", false, false},
+		{".d[0] % -0", "construct", false, false},
+		{".a % (.a - .a)", "construct", false, false},
+		{"(.a + 0.5) % 0", "construct", false, false},
+		{".c anchor = \"n1\" | .b alias = \"n1\" | .g = .b.x", "anchors", false, true},
+		{".c anchor = \"n1\" | .b alias = \"n1\" | [.b.y, .b.z]", "anchors", false, false},
+		{".c anchor = \"n1\" | .b alias = \"n1\" | explode(.b)", "anchors", false, true},
+		{".b alias = \"anc\" | .g = .b.x", "anchors", false, true},
 		{".b + " + q(w), "construct", false, false},
 		{"to_entries", "construct", false, false},
 		{".c | to_entries", "construct", false, false},
@@ -423,7 +431,12 @@ var ExprThemes = map[string][]string{
 	"datetime": {
 		".t | tz(\"UTC\")", ".t | tz(\"Australia/Sydney\")", ".t | tz(\"America/New_York\")", ".t | tz(\"Europe/Berlin\") | format_datetime(\"2006-01-02 15:04\")", ".t += \"3h\"", ".t -= \"30m\"", ".t | format_datetime(\"Monday\")", ".t | to_unix", "1700000000 | from_unix", ".t | tz(\"Asia/Tokyo\")",
 		"with_dtf(\"2006-01-02T15:04:05Z\"; .t | format_datetime(\"15:04\"))", ".t | tz(\"Africa/Cairo\")", ".t | tz(\"Pacific/Auckland\")",
+		// a layout that does not fit the data: the evaluation fails inside the with_dtf block
+		"with_dtf(\"02/01/2006\"; .t | format_datetime(\"15:04\"))", "with_dtf(\"Jan 2, 2006\"; .t += \"3h\")", "with_dtf(\"2006\"; .t | tz(\"UTC\"))",
+		"with_dtf(\"2006-01-02T15:04:05Z\"; .t += \"3h\")", ".t | format_datetime(\"2006\")", ".t | format_datetime(\"Jan 2\")",
 	},
+	// plain expressions: what varies in this theme is the encoder / decoder object and its preferences
+	"encoderprefs": {".", ".", ".c", ".d", ".a", ".b", ".e", "[.a, .b]", "{\"k\": .c}", ".e[0]", ".id"},
 	"snippet": {
 		".a + .b", ".a * .b", ".a - .b", ".a > .b", ".a == .b", "[.a, .b] | sort", ".l | sort", ".l | max", ".l | min", ".l | unique", ".t += \"3h\"", ".t | format_datetime(\"2006-01-02\")", ".l | sort_by(.)", ".a % .b", "[.l[] | . + 1]",
 	},
@@ -433,7 +446,7 @@ var ExprThemes = map[string][]string{
 	},
 }
 
-var ExprThemeNames = []string{"assignops", "regex", "sort", "encode", "variables", "literals", "snippet", "datetime", "pathtypes", "goccy", "loadshared"}
+var ExprThemeNames = []string{"assignops", "regex", "sort", "encode", "variables", "literals", "snippet", "datetime", "pathtypes", "goccy", "loadshared", "encoderprefs"}
 
 var commentOpRe = regexp.MustCompile(`(head|line|foot)_comment\s*(\|=|=)?`)
 
